@@ -970,12 +970,14 @@ def float_model_batch(ctx, cases, impls, stats):
     path = os.path.join(ctx.build, "C18_float_cases.v")
     with open(path, "w") as fh:
         fh.write("".join(src))
+    t0 = ctx.elapsed()
     try:
         pr = subprocess.run(["coqc", "-Q", os.path.join(ctx.verif, "coq"), "TK", "-w", "-all",
                              "-o", os.path.join(ctx.build, "C18_float_cases.vo"), path],
                             capture_output=True, text=True, timeout=600, cwd=ctx.build)
     except subprocess.TimeoutExpired:
         raise vlib.BuildError("coqc on the binary64 (PrimFloat) cases timed out")
+    stats["float_model_coqc_seconds"] = round(stats["float_model_coqc_seconds"] + ctx.elapsed() - t0, 1)
     if pr.returncode != 0:
         raise vlib.BuildError("binary64 (PrimFloat) evaluation failed: " + pr.stderr[-1500:])
     chunks = re.split(r"^\s+= ", pr.stdout, flags=re.M)[1:]
@@ -1801,7 +1803,7 @@ def new_stats():
             "cases_point_on_root_split_line": 0, "order_groups": 0, "order_pairs": 0, "float_replays": 0, "float_replay_forces": 0,
             "float_replay_near_tie": 0, "grad_cases": 0, "grad_replayed": 0, "grad_exact": 0, "grad_bound": 0, "cell_count_checks": 0,
             "float_model_cases": 0, "float_model_cells": 0, "float_model_contains_evals": 0, "float_model_cracks": 0,
-            "float_model_witness_checked": 0, "scaled_twins": 0, "scaled_max_depth": 0}
+            "float_model_witness_checked": 0, "float_model_coqc_seconds": 0.0, "scaled_twins": 0, "scaled_max_depth": 0}
 
 
 def run_batch(ctx, exe, mexe, cases, stats, with_model=True):
